@@ -94,6 +94,8 @@ type GunScript struct {
 	// WarmUpErr: the pool's warm-up fails.
 	WarmUp    bool
 	WarmUpErr bool
+	// WarmUpDur: the warm-up takes this much (simulated) time and does not look at its context, like the stock gRPC gun's
+	WarmUpDur time.Duration
 	Report    bool // report a netsample per shot to the bound aggregator
 	// ReportOnClose: a closable gun reports one more sample from Close (after CloseDur)
 	ReportOnClose bool
@@ -179,6 +181,9 @@ func (g *Gun) WarmUp(opts *warmup.Options) (interface{}, error) {
 	if g.f.Script.WarmUpErr {
 		g.f.Log.Add(Ev{Kind: "warmup", Err: "injected warm-up failure"})
 		return nil, fmt.Errorf("injected warm-up failure")
+	}
+	if d := g.f.Script.WarmUpDur; d > 0 {
+		time.Sleep(d)
 	}
 	g.f.Log.Add(Ev{Kind: "warmup"})
 	return nil, nil
